@@ -1029,6 +1029,7 @@ namespace awkward {
                                                   generator,
                                                   cache);
         out.get()->set_cache_depths_from(this);
+        out.get()->add_to_cache_depths(slicearray->ndim() - 1);
         return out;
       }
 
